@@ -1,12 +1,12 @@
 """C03 — every library gate has the matrix its documentation defines (DESIGN 5/C03)."""
 import math
 import numpy as np
-from .. import env, coq, runner, gates, tables
+from .. import env, coq, runner, gates, tables, gates_more
 
 LEVEL = 'proof'
 META = dict(
-    text='Coq theorems, for every exponent and global shift at once (generic commutative ring with i, 1/2, 1/sqrt2 and unit parameters, hence valid over C with r = exp(i pi t/2)): the eigen-decomposition tables regenerated from /repo on every run, summed the way EigenGate._unitary_ sums them, equal the documented closed-form matrix for each of the 53 EigenGate families; a correspondence run compares cirq.unitary of generated gate instances (special and generic parameters, named constants) with the model evaluated inside Coq.',
-    note='Trusted: Coq kernel; the transcription of the docstring formulas in coq/Gates/GateSpecs.v; vf/tables_gates.py (exact recognition of table entries, fail closed); the float instantiation (PrimFloat, tolerance 1e-9) used only for the comparison; the Python adapters computing cos/sin of the parameters. Non-eigen families are compared with their closed form only (no table to prove against).',
+    text='Coq theorems, for every exponent and global shift at once (generic commutative ring with i, 1/2, 1/sqrt2 and unit parameters, hence valid over C with r = exp(i pi t/2)): the eigen-decomposition tables regenerated from /repo on every run, summed the way EigenGate._unitary_ sums them, equal the documented closed-form matrix for each of the 53 EigenGate families; a correspondence run compares cirq.unitary of generated gate instances (special and generic parameters, named constants) with the model evaluated inside Coq. Second batch (Gates/MoreSpecs.v, MoreProofs.v), sizes universally quantified: diagonal gates of any length are unitary for unit entries, compose by multiplying phases and commute; BooleanHamiltonianGate is diag(u^(number of true clauses)) and is additive in the angle and in the clause list; ParallelGate(U, n) is the n-fold Kronecker power with (U x n)(V x n) = (UV) x n and adjoint = power of the adjoint, for any n and any sub-gate dimension; ArithmeticGate is the basis permutation x -> apply(x) on big-endian registers (constants, qudits, documented padding/wrapping), an isometry iff apply is injective on the register range, and compositions compose; each of the 24 single-qubit Cliffords conjugates X and Z to its stated images (generic ring, and exactly in Q(zeta_8)); DensePauliString product rule for strings of any length; UniformSuperposition column norm; StatePreparation / Reset(d) / Measurement / RandomGate Kraus families are trace preserving in any dimension. The same models are compared with cirq.unitary / cirq.kraus / cirq.mixture on generated instances.',
+    note='Trusted: Coq kernel; the transcription of the docstring formulas in coq/Gates/GateSpecs.v; vf/tables_gates.py (exact recognition of table entries, fail closed); the float instantiation (PrimFloat, tolerance 1e-9) used only for the comparison; the Python adapters computing cos/sin of the parameters. Non-eigen families are compared with their closed form only (no table to prove against). Second batch: the transcription in coq/Gates/MoreSpecs.v; vf/gates_more.py (the ArithmeticGate subclasses mirror aop_apply; boolean expressions are sent to Cirq as text and to the model as the tree they were printed from); numpy for the unitarity oracle of UniformSuperpositionGate (only its first column is documented).',
     technique='Rocq/Coq proof over regenerated eigen-decomposition tables + vm_compute correspondence against cirq.unitary',
 )
 
@@ -62,6 +62,8 @@ def run(ctx):
     checks = []
     c09.channel_stream(ctx, cirq, checks, 1 if ctx.tier == 'quick' else 8)
     c09.evaluate(ctx, checks)
+    # second batch of families (coq/Gates/MoreSpecs.v; vocabulary in vf/gates_more.py)
+    more_stream(ctx, cirq, mods)
 
 
 def impl_unitary(cirq, mods, g, obj):
@@ -105,7 +107,78 @@ def gate_stream(ctx, cirq, mods, rows):
                                got=[[str(complex(x)) for x in r] for r in u]))
 
 
+def more_stream(ctx, cirq, mods):
+    """Diagonal (2-/3-qubit and general), BooleanHamiltonian, Parallel, Wait, Arithmetic, single-qubit Cliffords, DensePauliString,
+    UniformSuperposition, StatePreparation / Reset(d) / Measurement / RandomGate / Kraus / MixedUnitary channels, named constants:
+    every row carries boolean Gallina expressions that evaluate the model of Gates/MoreSpecs.v (float instance) against the literal
+    Cirq reported; Coq prints the indices of the expressions that are false."""
+    gm = gates_more
+    per = 12 if ctx.tier == 'quick' else 120
+    ctx.rule += ('; second batch (streams more:*): per family the special angles 0, +-pi, +-pi/2, pi/4, 2pi, 3pi, 7.5, -9.25, 1e-3 and generic draws; '
+                 'diagonals of length 1..16, 1-4 variable boolean expressions (random ~ & | ^ trees, 1-3 clauses, sorted and unsorted names), 1-3 copies of '
+                 'qubit and qudit sub gates, arithmetic gates over qubit/qudit/constant registers (8 apply functions, incl. the docstring adder and a '
+                 'constant-changing one), all 24 Cliffords and the named ones, dense Pauli strings of length 0-4, uniform superpositions up to 5 qubits, '
+                 'channel descriptions; compared by vm_compute with the models of Gates/MoreSpecs.v (tol 1e-9; Cliffords and CliffordGate constants up to global phase)')
+    ctx.assumptions += ['docstring transcription in coq/Gates/MoreSpecs.v',
+                        'vf/gates_more.py: the ArithmeticGate subclasses (apply methods) are the ones named by aop_apply; '
+                        'boolean expressions are handed to Cirq as text and to the model as syntax trees built from the same tree']
+    rows = []
+    gens = [('Diagonal', lambda: gm.diagonal_rows(cirq, ctx.rng, per)), ('BooleanHamiltonian', lambda: gm.boolham_rows(cirq, ctx.rng, 2 * per)),
+            ('ParallelGate', lambda: gm.parallel_rows(cirq, mods, ctx.rng, per)), ('WaitGate', lambda: gm.wait_rows(cirq, mods, ctx.rng, per)),
+            ('ArithmeticGate', lambda: gm.arith_rows(cirq, ctx.rng, per)), ('Clifford', lambda: gm.clifford_rows(cirq, ctx.rng)),
+            ('DensePauliString', lambda: gm.dense_rows(cirq, ctx.rng, per)), ('UniformSuperposition', lambda: gm.uniform_rows(cirq, ctx.rng, per)),
+            ('channels', lambda: gm.channel_rows(cirq, ctx.rng, per)), ('named', lambda: gm.named_rows(cirq, mods))]
+    for name, gen in gens:
+        try:
+            rows += gen()
+        except Exception as e:      # a library gate that no longer builds / has no description
+            import traceback
+            ctx.violation(f'more:{name}:raises', f'{name}: building the gate or asking Cirq for its description raised {type(e).__name__}: {e}',
+                          dict(kind='more', family=name, trace=traceback.format_exc()[-1500:]))
+    flat = []
+    for ri, r in enumerate(rows):
+        ctx.count(r['stream'], r['key'], r['nontrivial'], sample=r['sample'])
+        for tag, expr in r['checks']:
+            flat.append((ri, tag, expr))
+    shard = 150
+    items = []
+    for k in range(0, len(flat), shard):
+        part = flat[k:k + shard]
+        text = gm.HEADER + 'Definition checks : list bool := [\n' + ';\n'.join(e for _, _, e in part) + '].\n'
+        text += 'Eval vm_compute in failing (fun b : bool => b) checks.\n'
+        items.append((f'c03_more_{ctx.seed}_{k // shard}', text))
+    outs = coq.coq_eval_many(items)
+    failed = {}
+    for k, out in enumerate(outs):
+        for idx in coq.parse_nat_list(coq.parse_evals(out)[0]):
+            ri, tag, _ = flat[k * shard + idx]
+            failed.setdefault(ri, []).append(tag)
+    for ri, tags in sorted(failed.items()):
+        r = rows[ri]
+        replay = dict(kind='more', stream=r['stream'], key=r['key'], failed=tags)
+        if r.get('kind') == 'boolham':
+            if 'doc' not in tags and 'shape' not in tags:
+                continue        # equals the class docstring exactly (then the other reading is irrelevant)
+            if 'conv' not in tags and 'shape' not in tags:
+                # differs from the class docstring, but is the __init__ docstring's sign at half the angle, up to a global phase
+                ctx.violation('gate:BooleanHamiltonianGate:docstring-sign-and-phase',
+                              r['what'] + ' is not sum_x e^{+i t/2 sum_k f_k(x)} |x><x| (class docstring); it is e^{-i t/2 sum_k f_k(x)} up to a global phase', replay)
+                continue
+        if r.get('kind') == 'parallel' and tags == ['shape'] and r['dim'] != 2:
+            # the matrix is the documented tensor power (dimension d^n) but the reported qid_shape is that of qubits
+            ctx.violation('gate:ParallelGate:qid_shape-of-qudit-sub-gate',
+                          f'{r["what"]}: the unitary is the tensor power (dimension {r["dim"]}^n) but cirq.qid_shape is {r["got_shape"]}', replay)
+            continue
+        ctx.mark_broken('correspondence:' + r['stream'], f'{r["what"]} [failed: {", ".join(tags)}]')
+        fam = r['stream'].split(':', 1)[1]
+        sig = 'gate:' + (f'named:{r["key"][0]}' if fam == 'named' else fam)
+        ctx.violation(sig, f'{r["what"]} [failed checks: {", ".join(tags)}] (tol 1e-9)', replay)
+
+
 def replay(ctx, data):
+    if data.get('kind') == 'more':
+        import sys
+        return runner.replay_by_rerun(sys.modules[__name__], ctx, data)
     mods = env.import_cirq(('cirq_google', 'cirq_ionq'))
     cirq = mods['cirq']
     p = data['params']
